@@ -407,6 +407,36 @@ pub fn main() {
             native.push(json!({"kind": k, "parts": n, "max_ident_len": l, "identifiers": ids.len(), "references": count, "failures": fails_here, "wall_s": t0.elapsed().as_secs_f64()}));
         }
     }
+    // a fixed list of whole identifiers (non-ASCII digits / letters in leading and non-leading position ...): every
+    // reference of every kind and arity over the list
+    let mut native_ids = json!(null);
+    if let Some(list) = util::arg("--native-ids") {
+        let ids: Vec<String> = list.split(',').map(|s| s.to_string()).collect();
+        let mut refs = 0u64;
+        let mut fails_here = 0u64;
+        for (k, maxn) in [("T", 3usize), ("C", 4), ("S", 2)] {
+            for n in 1..=maxn {
+                let mut idx = vec![0usize; n];
+                'outer: loop {
+                    let p: Vec<String> = idx.iter().map(|&j| ids[j].clone()).collect();
+                    let (_t, fs) = rn.run(k, &p, n <= 2 || refs % 11 == 0);
+                    refs += 1;
+                    fails_here += fs.len() as u64;
+                    push_fail(&mut failures, &mut nfail, k, &p, fs, "native-ids");
+                    let mut d = n;
+                    loop {
+                        if d == 0 { break 'outer; }
+                        d -= 1;
+                        idx[d] += 1;
+                        if idx[d] < ids.len() { break; }
+                        idx[d] = 0;
+                    }
+                }
+            }
+        }
+        evaluations += refs;
+        native_ids = json!({"identifiers": ids, "references": refs, "failures": fails_here});
+    }
     // seeded random references over a wider alphabet and longer identifiers (beyond the model-checked scope)
     let mut random = json!(null);
     if let Some(n) = util::arg("--random").and_then(|s| s.parse::<u64>().ok()) {
@@ -414,7 +444,7 @@ pub fn main() {
         let mut rng = rand::rngs::StdRng::seed_from_u64(util::seed());
         // wider alphabet: other scripts, a combining mark (e + U+0301 must stay distinct from the precomposed letter),
         // capital I with dot (its full lower-casing is two characters), sharp s, a zero-width joiner, an emoji
-        let wide: Vec<char> = "aabzAZ019__..\"\"  é\t'`\\-$É\n;e\u{301}İßя\u{200d}😀Ω".chars().collect();
+        let wide: Vec<char> = "aabzAZ019__..\"\"  é\t'`\\-$É\n;e\u{301}İßя\u{200d}😀Ω₂²١①ñ".chars().collect();
         let maxlen: usize = util::arg("--random-maxlen").and_then(|s| s.parse().ok()).unwrap_or(8);
         let mut fails_here = 0u64;
         let mut long_idents = 0u64;
@@ -478,6 +508,7 @@ pub fn main() {
         "n_failures_empty_identifier": nfail_empty,
         "native": native,
         "keywords": kw,
+        "native_ids": native_ids,
         "random": random,
         "rendered_quoted": rendered_quoted,
         "rendered_bare": rendered_bare,
